@@ -7,7 +7,11 @@ def main():
     seed = int(os.environ.get("VERIF_SEED", "20260927"))
     mod = importlib.import_module(prop.lower())
     if arg == "--replay":
-        sys.exit(mod.replay(sys.argv[3]))
+        import json
+        path = os.path.abspath(sys.argv[3])
+        r = json.load(open(path, encoding="utf-8"))
+        os.environ["VERIF_REPLAY"] = path
+        sys.exit(mod.main(r.get("tier", "quick"), int(r.get("seed", seed))))
     tier = os.environ.get("VERIF_TIER", arg)
     if arg in ("quick", "thorough"):
         tier = arg
